@@ -86,7 +86,13 @@
                              res))))
 
 (define (hash-table-delete! ht . keys)
-  (for-each (lambda (key) (%hash-table-delete! ht key)) keys))
+  (let lp ((ls keys) (count 0))
+    (cond
+     ((null? ls) count)
+     ((hash-table-contains? ht (car ls))
+      (%hash-table-delete! ht (car ls))
+      (lp (cdr ls) (+ count 1)))
+     (else (lp (cdr ls) count)))))
 
 (define (hash-table-pop! ht)
   (let* ((key (car (hash-table-keys ht)))
